@@ -652,6 +652,10 @@ def run(ctx):
             note=f"{cases_per_key[key]} failing completions are attributed to this key in this run",
         )
     ctx.log(f"part 1: {dict(tot)}; failing completions {tot['failing']} in {len(per_key)} keys")
+    if tot["completions"] * 2 < tot["admitted"]:
+        # the statement does not oblige the completer to offer anything, but a run in which it mostly
+        # offers nothing has checked nothing: that is a harness/tool problem, not a pass
+        raise common.ToolError(f"vacuous run: only {tot['completions']} completions for {tot['admitted']} admitted cases")
     nontrivial_names = sum(1 for r in res if r["completions"] > 0)
 
     # ---- part 2
